@@ -183,7 +183,24 @@ def prove_identity(lhs, rhs, timeout_s=60):
         R = z3_to_sympy(rhs, env)
     except NotPolynomial as e:
         return False, "not-polynomial: %s" % e
-    expr, rel, gens = _atomize(L - R)
+    ok, det = _prove_zero(L - R, t0)
+    if ok:
+        return ok, det
+    # half angles: sin(x/2)^2 and cos(x/2)^2 are brought to (1 -+ cos x)/2 (power reduction, exact identities) and the
+    # normalisation is tried once more
+    try:
+        from sympy.simplify.fu import TR5, TR7
+        reduced = TR7(TR5(sp.expand(L - R)))
+    except Exception:
+        return ok, det
+    if reduced == L - R:
+        return ok, det
+    ok2, det2 = _prove_zero(reduced, t0)
+    return (True, det2 + " after power reduction") if ok2 else (ok, det)
+
+
+def _prove_zero(diff, t0):
+    expr, rel, gens = _atomize(diff)
     num, den = sp.fraction(sp.together(expr))
     num = sp.expand(num)
     if num == 0:
